@@ -53,14 +53,19 @@ CONSTANTS Scenarios,   \* set of scenario records
           MaxGen, MaxChan, MaxPath
 
 VARIABLES cfg, out, lst, sreg, reg, hnd, alive, qlist, chD, chU, ngen,
+          lost, zomb,     \* requests whose register / unregister message the full downstream channel refused
           cmd, evs, ret, pre, path
 
-core == <<cfg, out, lst, sreg, reg, hnd, alive, qlist, chD, chU, ngen>>
-vars == <<cfg, out, lst, sreg, reg, hnd, alive, qlist, chD, chU, ngen, cmd, evs, ret, pre, path>>
+core == <<cfg, out, lst, sreg, reg, hnd, alive, qlist, chD, chU, ngen, lost, zomb>>
+vars == <<cfg, out, lst, sreg, reg, hnd, alive, qlist, chD, chU, ngen, lost, zomb, cmd, evs, ret, pre, path>>
 
 NONE == "-"
 UNH == 5      \* UBASE_ERR_UNHANDLED
 INV == 6      \* UBASE_ERR_INVALID
+BUSY == 8     \* UBASE_ERR_BUSY
+\* length of the out-of-band queues of upipe_queue_source.c (OOB_QUEUES); a scenario may carry a smaller one
+\* (field qcap) for the exhaustive runs
+QCap == IF "qcap" \in DOMAIN cfg THEN cfg.qcap ELSE 255
 
 Types == {"uref_mgr", "flow_format", "ubuf_mgr", "uclock", "sink_latency"}
 \* what the provider hands over: recording probe / sink, real probe
@@ -88,7 +93,7 @@ IndexR(s, r) == LET I == {i \in DOMAIN s : s[i].r = r} IN IF I = {} THEN 0 ELSE 
 
 \* ---- the state as a record (threaded through the propagation) ----------
 Cur == [out |-> out, lst |-> lst, sreg |-> sreg, reg |-> reg, hnd |-> hnd, alive |-> alive,
-        qlist |-> qlist, chD |-> chD, chU |-> chU, ngen |-> ngen, evs |-> <<>>,
+        qlist |-> qlist, chD |-> chD, chU |-> chU, ngen |-> ngen, lost |-> lost, zomb |-> zomb, evs |-> <<>>,
         \* entries <<pipe, request, proxies, generation>> whose `registered` flag is down although the pipe
         \* has an output: only while STRUCTURE##_set_output re-issues them one by one (transient)
         unr |-> {}]
@@ -149,11 +154,17 @@ RegAt(S, n, e) ==
               [] cfg.mode[n] = "throw" -> ThrowAt(S1, n, e)
               [] OTHER -> [s |-> S1, e |-> UNH]
     [] K(n) = "qsink" ->
-         LET g == S.ngen + 1
-             q == [r |-> e.r, d |-> e.d + 1, g |-> g]
-         IN [s |-> [S EXCEPT !.ngen = g, !.qlist = Append(@, q),
-                              !.chD = Append(@, [op |-> "reg", q |-> q])],
-             e |-> 0]
+         \* upipe_qsink_register_request: the proxy joins the list, the REGISTER message is pushed; if the
+         \* out-of-band queue is full the proxy is dropped again and the caller gets UBASE_ERR_BUSY: nothing
+         \* of the request exists beyond this point (the statement does not speak of a full queue: only
+         \* "never a call-back after unregister" is still required of such a request)
+         IF Len(S.chD) >= QCap
+         THEN [s |-> [S EXCEPT !.lost = @ \cup {e.r}], e |-> BUSY]
+         ELSE LET g == S.ngen + 1
+                  q == [r |-> e.r, d |-> e.d + 1, g |-> g]
+              IN [s |-> [S EXCEPT !.ngen = g, !.qlist = Append(@, q),
+                                   !.chD = Append(@, [op |-> "reg", q |-> q])],
+                  e |-> 0]
     [] OTHER ->
          IF T(e.r) \in cfg.icpt[n] THEN ThrowAt(S, n, e)
          ELSE LET R == RegOut(S, n, [e EXCEPT !.d = @ + 1])
@@ -181,8 +192,15 @@ UnregAt(S, n, e) ==
              S1 == IF i = 0 THEN S ELSE [S EXCEPT !.sreg[n] = RemoveAt(@, i)]
          IN [s |-> Ev(S1, <<"sunreg", n, e.r, e.d>>), e |-> 0]
     [] K(n) = "qsink" ->
+         \* upipe_qsink_unregister_request: the proxy leaves the list FIRST (from then on an answer that
+         \* comes back is ignored), then the UNREGISTER message is pushed; if the queue is full the message
+         \* is lost and the registration downstream of the queue source stays (until that pipe dies)
          LET i == IndexOf(S.qlist, e.r, e.d + 1)
-         IN IF i = 0 THEN [s |-> S, e |-> INV]
+         IN IF i = 0 THEN [s |-> [S EXCEPT !.lost = @ \ {e.r}], e |-> INV]
+            ELSE IF Len(S.chD) >= QCap
+            THEN [s |-> [S EXCEPT !.qlist = IF Variant = "unreg_full_keeps" THEN @ ELSE RemoveAt(@, i),
+                                  !.zomb = @ \cup {e.r}],
+                  e |-> BUSY]
             ELSE [s |-> [S EXCEPT !.qlist = RemoveAt(@, i),
                                   !.chD = Append(@, [op |-> "unreg", q |-> S.qlist[i]])],
                   e |-> 0]
@@ -252,7 +270,7 @@ Cpt(s) == [i \in DOMAIN s |-> <<s[i].r, s[i].d, s[i].g>>]
 CoreRec == [id |-> cfg.id, o |-> out, l |-> [n \in DOMAIN lst |-> Cpt(lst[n])],
             s |-> [n \in DOMAIN sreg |-> Cpt(sreg[n])], r |-> reg,
             h |-> {n \in Nodes : hnd[n]}, a |-> {n \in Nodes : alive[n]},
-            q |-> Cpt(qlist), g |-> ngen,
+            q |-> Cpt(qlist), g |-> ngen, L |-> lost, Z |-> zomb,
             D |-> [i \in DOMAIN chD |-> <<chD[i].op, chD[i].q.r, chD[i].q.d, chD[i].q.g>>],
             U |-> [i \in DOMAIN chU |-> <<chU[i].r, chU[i].g, chU[i].val>>]]
 
@@ -263,6 +281,7 @@ Emit == EmitEdges =>
 Apply(S, c, rv) ==
   /\ out' = S.out /\ lst' = S.lst /\ sreg' = S.sreg /\ reg' = S.reg /\ hnd' = S.hnd
   /\ alive' = S.alive /\ qlist' = S.qlist /\ chD' = S.chD /\ chU' = S.chU /\ ngen' = S.ngen
+  /\ lost' = S.lost /\ zomb' = S.zomb
   /\ evs' = S.evs /\ cmd' = c /\ ret' = rv
   /\ pre' = [chU |-> chU, qlist |-> qlist]
   /\ path' = IF MaxPath > 0 THEN Append(path, [c |-> c, evs |-> S.evs, ret |-> rv]) ELSE path
@@ -352,7 +371,7 @@ InitWith(c) ==
   /\ cfg = c
   /\ out = Start(c).out /\ lst = Start(c).lst /\ sreg = Start(c).sreg
   /\ reg = Start(c).reg /\ hnd = Start(c).hnd /\ alive = Start(c).alive
-  /\ qlist = <<>> /\ chD = <<>> /\ chU = <<>> /\ ngen = 0
+  /\ qlist = <<>> /\ chD = <<>> /\ chU = <<>> /\ ngen = 0 /\ lost = {} /\ zomb = {}
   /\ cmd = C("new", NONE, NONE) /\ evs = <<>> /\ ret = 0
   /\ pre = [chU |-> <<>>, qlist |-> <<>>]
   /\ path = <<>>
@@ -401,18 +420,27 @@ Has(n, r) ==
 \* the nodes on the path from where it is registered (nowhere if it is
 \* unregistered); for the nodes beyond the queue this is required once no
 \* message about r is under way.  A dead node holds nothing.
+\* A request whose message a FULL out-of-band queue refused is outside the sentence from the queue sink on
+\* (lost registration) or beyond the queue (lost unregistration: the entry downstream stays behind).
 PathInv ==
   \A r \in Reqs : \A n \in Nodes :
-    (cfg.side[n] = "B" /\ PendingD(r)) \/ (Has(n, r) <=> n \in Expected(r))
+    \/ cfg.side[n] = "B" /\ (PendingD(r) \/ r \in zomb \/ r \in lost)
+    \/ K(n) = "qsink" /\ r \in lost
+    \/ (Has(n, r) <=> n \in Expected(r))
 
+\* (an unregistration lost by a full queue leaves its entry behind beyond the queue: a later registration of
+\* the same request - another generation - may then stand next to it)
 OneEntry ==
-  \A r \in Reqs : \A n \in Fwd : Cardinality({i \in DOMAIN lst[n] : lst[n][i].r = r}) <= 1
+  \A r \in Reqs : \A n \in Fwd :
+    LET I == {i \in DOMAIN lst[n] : lst[n][i].r = r}
+    IN \/ Cardinality(I) <= 1
+       \/ r \in zomb /\ cfg.side[n] = "B" /\ \A i, j \in I : i # j => lst[n][i].g # lst[n][j].g
 
 TypeOK ==
   /\ \A n \in Fwd : out[n] \in Nodes \cup {NONE} /\ (out[n] # NONE => alive[out[n]])
   /\ \A r \in Reqs : reg[r] \in Nodes \cup {NONE}
   /\ \A r \in Reqs : reg[r] # NONE => alive[reg[r]]
-  /\ ret \in {0, UNH, INV}
+  /\ ret \in {0, UNH, INV, BUSY}
 
 \* -- properties of the last command (outputs) --
 CbOf(r) == Cardinality({i \in DOMAIN evs : evs[i][1] = "cb" /\ evs[i][2] = r})
